@@ -25,6 +25,24 @@ pub enum AtColour {
 #[verifier::external_body]
 #[verifier::reject_recursive_types(S)]
 pub struct AtANSIGenericString<'a, S: 'a + ToOwned + ?Sized> { _p: std::marker::PhantomData<&'a S> }
+/// ansi_term's `Style::prefix()` / `suffix()`: the escape sequences that switch a style on / off, as `Display` values.
+/// Their text is uninterpreted: code that assembles a styled string from them by hand (instead of `paint`) gets no
+/// guarantee from these contracts.
+pub uninterp spec fn at_prefix_text(style: AtStyle) -> Seq<char>;
+pub uninterp spec fn at_suffix_text(style: AtStyle) -> Seq<char>;
+#[verifier::external_body]
+pub struct AtFix { _p: u8 }
+impl AtFix {
+    pub uninterp spec fn text(&self) -> Seq<char>;
+    #[verifier::external_body]
+    pub fn to_string(&self) -> (r: String) ensures r@ == self.text() { unimplemented!() }
+}
+impl AtStyle {
+    #[verifier::external_body]
+    pub fn prefix(self) -> (r: AtFix) ensures r.text() == at_prefix_text(self) { unimplemented!() }
+    #[verifier::external_body]
+    pub fn suffix(self) -> (r: AtFix) ensures r.text() == at_suffix_text(self) { unimplemented!() }
+}
 pub mod ansi_term {
     pub use crate::AtStyle as Style;
     pub use crate::AtColour as Colour;
